@@ -3,7 +3,7 @@
    handle_trace_string_threadname on the model side), ChunksPairing.v (through the pairing machine), the regenerated
    rows for the path arguments of the syscalls.  Tie: correspondence of tools/props/C08.py. *)
 From Coq Require Import String ZArith NArith List Bool.
-From Kd Require Import theories.Base theories.Printers theories.Chunks theories.ChunksWindow theories.Pairing theories.ChunksPairing
+From Kd Require Import theories.Base theories.Printers theories.Chunks theories.ChunksWindow theories.Pairing theories.ChunksPairing theories.ChunksPairingWindow
   theories.DecoderDSL theories.DecoderDeps theories.DecoderProps gen.GenEnums gen.GenDecoders.
 Import ListNotations.
 Open Scope N_scope.
@@ -49,6 +49,17 @@ Proof. intros dom dec t c D hr s us e. now apply split_delivered_once. Qed.
 Theorem c08_once_single : forall dom dec c, dec c = true -> forall hr a,
   p_code a = c -> p_q a = QA -> spec_run dom dec hr [a] = [Some [a]].
 Proof. intros dom dec c D hr a. now apply (single_delivered_once dom dec c D). Qed.
+
+(* 2b. ... and with ARBITRARY records in between (any thread, code, qualifier - anything but a START / END of the text's own key):
+       after ANY history the END record delivers a window that begins with the START, whose records of the text's own key are
+       exactly START, the text's own records in between, END, in stream order, and whose other members are same-thread records
+       that occurred in between - the window 1b speaks about *)
+Theorem c08_window_with_unrelated : forall dom dec t c, dec c = true -> forall hr s items e,
+  isS (ChunksPairingWindow.K t c) s = true -> forallb (ChunksPairingWindow.quiet t c) items = true -> isE (ChunksPairingWindow.K t c) e = true ->
+  exists w, spec_out dom dec (rev items ++ s :: hr) e = Some (w ++ [e])
+            /\ filter (ChunksPairingWindow.ownb t c) (w ++ [e]) = s :: filter (ChunksPairingWindow.ownb t c) items ++ [e]
+            /\ (forall x, In x w -> x = s \/ (In x items /\ p_tid x = t)).
+Proof. intros dom dec t c D hr s items e. now apply delivered_window_own. Qed.
 
 (* 3. every path-taking syscall shows the looked-up paths in lookup order: in every syscall row the path sources
       appear in non-decreasing lookup index (posix_spawn, which picks lookup 3 or lookup 0, is stated separately) *)
